@@ -12,6 +12,14 @@ chk("C01","fault_enumeration",
     "The whole server runs over the in-memory adapter; concurrent publishers on grp/chn/p2p/sys topics (several users, several sessions, root on behalf of a user, store-call delays, idle unload/reload and p2p unsubscribe/resubscribe between bursts) produce client-boundary histories that are checked for unique gapless acks, ack = data = history = desc numbering, per-session order, consecutive MessageSave numbers and linearizability (porcupine) against an append-only log. Every store call of a publish is made to fail in turn and the process is really SIGKILLed before and after every store call of a publish, restarted from the durable snapshot and queried. Faults and crash points are enumerated completely for the publish path; schedules are sampled.",
     "vfmem (harness/vfmem) stands in for the SQL adapters and is trusted to mirror their contract; SQL text is not exercised; schedules are those the Go scheduler plus injected store delays produce.",
     "client-boundary history recording + porcupine linearizability + store fault/crash enumeration","sim","DESIGN.md 3/C01")
+chk("C02","exploration",
+    "Whole-server runs over the in-memory adapter with websocket clients: after every accepted publish, at logical quiescence, the set of sessions that received a copy, each copy's content/head/from/seq/topic name and the push receipt (recipients, channel) are compared with what the store rows captured just before the publish and the client-observed attachment history say. Populations, permission histories, idle reloads (channel reader first) and noecho/forged-sender/nested-content inputs are drawn per scenario.",
+    "vfmem mirrors the adapter contract; attachment derived from the client-boundary history; quiescence is logical (channels empty, no store call in flight, all goroutines parked, frames out = frames in); concurrent attach/detach churn during a publish is covered by C14, not here.",
+    "offline oracle over recorded client frames + push receipts against store-row ground truth","sim","DESIGN.md 3/C02")
+chk("C03","exploration",
+    "Same engine as C02 with the publish-permission oracles: every attempt is classified entitled/not entitled from the store rows and attachment history; accepted => entitled; rejected => error reply with the request id and no effect (no store write between request and quiescence, no frame at any session, no push); entitled => accepted. Includes me/fnd, system topic without attachment, anonymous level, root on behalf of a user, owner suspended (read-only topic) and a publish racing {del topic} while the store call is slowed.",
+    "vfmem mirrors the adapter contract; 'being deleted' is explored through one injected delay at TopicDelete, not all schedules.",
+    "offline oracle over client frames + store-call log with ground-truth rows","sim","DESIGN.md 3/C03")
 chk("C05","exploration",
     "Runtime oracle over the real AccessMode code: every one of the 256x256 permission pairs is pushed through Delta/ApplyDelta/ApplyMutation and every set through text/JSON/SQL round trips (finite core enumerated completely); all short strings over the mode alphabet plus junk are compared with an independent reference for the stated laws (unknown letters rejected and target unchanged, empty = no change, N = none). The on-the-wire intersection law and the notification-replay clause are monitored in the C07 engine runs and reported there.",
     "Reference parser in harness/types/c05.go is trusted; strings longer than 5 are sampled, not enumerated; proxy replay through updateAcsFromPresMsg is exercised by the sim engine (C07), not here.",
